@@ -62,7 +62,9 @@ func c15Round(r *core.Run, idx int, rng *rand.Rand) {
 	old := runtime.GOMAXPROCS(procs)
 	defer runtime.GOMAXPROCS(old)
 
-	e, err := env.New(env.Opts{HostPath: "/saml", SigAlg: spsim.AlgRSASHA256, MetaSigAlg: []string{"", spsim.AlgRSASHA256}[idx%2]})
+	// every other round the issuer comes from the Forwarded header while all clients share one upstream Host
+	forwarded := (idx/9)%2 == 1 || idx%4 == 3
+	e, err := env.New(env.Opts{HostPath: "/saml", UseFwd: forwarded, SigAlg: spsim.AlgRSASHA256, MetaSigAlg: []string{"", spsim.AlgRSASHA256}[idx%2]})
 	if err != nil {
 		panic(err)
 	}
@@ -139,6 +141,10 @@ func c15Round(r *core.Run, idx int, rng *rand.Rand) {
 			<-start
 			do := func(kind string, rq env.Req) *env.Call {
 				rq.Host = st.host
+				if forwarded {
+					rq.Host = "lb.internal"
+					rq.Headers = map[string][]string{"Forwarded": {"for=192.0.2.1;host=" + st.host + ";proto=https"}}
+				}
 				n := inflight.Add(1)
 				for {
 					m := maxInflight.Load()
@@ -280,6 +286,9 @@ func c15Round(r *core.Run, idx int, rng *rand.Rand) {
 		}
 	}
 	r.Count("requests", total.Load())
+	if forwarded {
+		r.Count("rounds_with_forwarded_issuer", 1)
+	}
 	r.Count("requests_with_foreign_storage_events_inside_their_span", int64(interleaved))
 	r.Count("distinct_interleaving_signatures", int64(len(sigs)))
 	r.Max("max_in_flight", maxInflight.Load())
@@ -298,7 +307,7 @@ func c15Round(r *core.Run, idx int, rng *rand.Rand) {
 		r.Inconclusive(fmt.Sprintf("round %d never had two requests in flight", idx))
 	}
 	if idx == 0 {
-		r.Sample("round", map[string]any{"clients": clients, "gomaxprocs": procs, "ops_per_client": ops, "requests": total.Load(), "max_in_flight": maxInflight.Load(), "interleaved_requests": interleaved, "distinct_interleaving_signatures": len(sigs)})
+		r.Sample("round", map[string]any{"issuer_from_forwarded_header": forwarded, "clients": clients, "gomaxprocs": procs, "ops_per_client": ops, "requests": total.Load(), "max_in_flight": maxInflight.Load(), "interleaved_requests": interleaved, "distinct_interleaving_signatures": len(sigs)})
 	}
 }
 
@@ -308,13 +317,14 @@ func init() {
 		TimeoutQuick: 10 * time.Minute, TimeoutThorough: 60 * time.Minute,
 		Build: func(c *Ctx) []core.Workload {
 			r := c.Run
-			r.Rule = "one provider instance with a host-derived issuer serves N = 16 / 32 / 64 concurrent clients (GOMAXPROCS 2 / 4 / 16), each running a random mix of SSO, callback (pending and completed), logout, attribute query, metadata and certificate requests for its own sessions, service provider, user and Host, with Gosched / microsecond-millisecond delays injected inside every storage call; the binary is built with -race. Monitors: (1) every DATA RACE report of the race detector with repo frames; (2) every canary token (client number in request IDs, RelayState, consumer URLs, entity IDs, Host, user attributes) found in a fully decoded reply must be the requesting client's, and what is persisted must be the client's own; (3) every Response / Assertion / metadata ID seen in the run is an xs:ID and pairwise distinct. Evidence lists max in-flight requests and distinct interleaving signatures of the storage log. Evaluations = requests served; distinct = distinct interleaving signatures (the sequence of other requests' storage operations observed between a request's first and last storage event)."
+			r.Rule = "one provider instance with a host-derived issuer (from the Host header, or - every other round - from the Forwarded header while all clients share one upstream Host) serves N = 16 / 32 / 64 concurrent clients (GOMAXPROCS 2 / 4 / 16), each running a random mix of SSO, callback (pending and completed), logout, attribute query, metadata and certificate requests for its own sessions, service provider, user and Host, with Gosched / microsecond-millisecond delays injected inside every storage call; the binary is built with -race. Monitors: (1) every DATA RACE report of the race detector with repo frames; (2) every canary token (client number in request IDs, RelayState, consumer URLs, entity IDs, Host, user attributes) found in a fully decoded reply must be the requesting client's, and what is persisted must be the client's own; (3) every Response / Assertion / metadata ID seen in the run is an xs:ID and pairwise distinct. Evidence lists max in-flight requests and distinct interleaving signatures of the storage log. Evaluations = requests served; distinct = distinct interleaving signatures (the sequence of other requests' storage operations observed between a request's first and last storage event)."
 			r.Require("requests", int64(c.Pick(3000, 100000)))
 			r.Require("max_in_flight", 4)
 			r.Require("distinct_interleaving_signatures", 100)
 			r.Require("ids_checked", 1000)
 			r.Require("race_log_files", 0)
-			return []core.Workload{{Name: "concurrent_rounds", N: c.Pick(3, 27), Workers: 1, Fn: c15Round}}
+			r.Require("rounds_with_forwarded_issuer", 1)
+			return []core.Workload{{Name: "concurrent_rounds", N: c.Pick(4, 27), Workers: 1, Fn: c15Round}}
 		},
 	})
 }
